@@ -597,4 +597,133 @@ example : (match GenericRegister exExtR 1 "k" (.ptr (.ptr (.base 7))) [] [] with
 
 end TranslatedRegister
 
+/-! ## embedded structs and clashing field names
+
+For the serialiser an embedded struct (`type Task struct { Audit; ID string }`) is ONE field of
+the outer struct, named after its type, holding a struct value: the encoder walks the outer
+struct's own fields only (fact `structEncoderOwnFieldsOnly`: one loop over `rt.NumField()`, one
+store `ret.MapValues[field.Name]` per exported own field, no helper call, no `.Anonymous`), and the
+decoder's `FieldByName(k)` resolves a name the struct declares itself to that own field (depth 0
+wins over promoted fields).  In the model that is a struct declaration with a field
+`(Audit, .struct Audit)` — or `(Audit, .ptr (.struct Audit))` for `*Audit` —; field names are
+distinct within ONE declaration (Go's rule, `Ctx.ok`) and may clash freely between the outer
+struct and the structs it embeds, at any depth, or between two embedded structs.
+`roundtrip_partial`, `loud`, … quantify over all such declarations.  What this section adds: the
+table written for a struct has exactly the struct's own field names as keys (nothing is promoted
+into it), and the clashing shapes as computed witnesses. -/
+
+def GoKVs.keys : GoKVs → List String
+  | .nil => []
+  | .cons k _ r => k :: r.keys
+def ISKVs.keys : ISKVs → List String
+  | .nil => []
+  | .cons k _ r => k :: r.keys
+
+/-- the fact the model's `encFields` relies on has the value it was written for -/
+theorem struct_encoder_fact_matches :
+    FactsC12.structEncoderOwnFieldsOnly = structEncoderOwnFieldsOnly := by decide
+
+theorem encFields_keys (ctx : Ctx) (J : JLayer) (F : Facts) :
+    ∀ (fs : GoKVs) (xs : ISKVs), encFields ctx J F fs = .ok xs → xs.keys = fs.keys
+  | .nil, xs, h => by
+    simp only [encFields] at h
+    have := ok_inj h
+    subst this
+    rfl
+  | .cons f v r, xs, h => by
+    simp only [encFields] at h
+    cases hi : encP ctx J F 0 v with
+    | error e => rw [hi] at h; cases h
+    | ok i =>
+      rw [hi] at h
+      cases hr : encFields ctx J F r with
+      | error e => rw [hr] at h; cases h
+      | ok is =>
+        rw [hr] at h
+        have : ISKVs.cons f i is = xs := ok_inj h
+        subst this
+        simp only [ISKVs.keys, GoKVs.keys, encFields_keys ctx J F r is hr]
+
+/-- **nothing is promoted into a struct's table.**  Whatever struct value the encoder accepts
+    (any pointer depth above it, any declarations, embedded structs or not): the node it writes
+    is a struct node whose table has exactly the value's own field names as keys, in declaration
+    order — the fields of an embedded struct sit one level down, in the table of the field named
+    after the embedded type, so equal names at different levels never meet in one table. -/
+theorem struct_table_has_own_field_names_only (ctx : Ctx) (J : JLayer) (k : Nat) (n : Name) (fs : GoKVs) (is : IS)
+    (h : encP ctx J srcFacts k (.struct n fs) = .ok is) :
+    ∃ key xs, is = IS.structN k key xs ∧ xs.keys = fs.keys := by
+  simp only [encP] at h
+  cases hk : keyOfE ctx (.struct n) with
+  | error e => rw [hk] at h; cases h
+  | ok key =>
+    rw [hk] at h
+    cases hx : encFields ctx J srcFacts fs with
+    | error e => rw [hx] at h; cases h
+    | ok xs =>
+      rw [hx] at h
+      exact ⟨key, xs, (ok_inj h).symm, encFields_keys ctx J srcFacts fs xs hx⟩
+
+def tAudit : GoTy := .struct "Audit"
+
+/-- `ctxW` plus: `Audit{ID string; Version int}`; `Task{Audit; ID string}` (outer field after the
+    embedded struct), `Task2{ID string; Version *int; Audit}` (before it, one clash with another
+    type), `Two{EmbA; EmbB}` (both declare `ID`: ambiguous selector, no outer field of that name),
+    `PTask{*Audit; ID string}` (embedded by pointer), `Deep{Task; Version int; ID []string}` (two
+    levels: `Deep.ID` shadows `Deep.Task.ID` and `Deep.Task.Audit.ID`) -/
+def ctxE : Ctx where
+  reg := ctxW.reg ++ [("e_audit", tAudit), ("e_task", .struct "Task"), ("e_task2", .struct "Task2"), ("e_a", .struct "EmbA"),
+    ("e_b", .struct "EmbB"), ("e_two", .struct "Two"), ("e_ptask", .struct "PTask"), ("e_deep", .struct "Deep")]
+  structs := ctxW.structs ++
+    [("Audit", [("ID", tStr), ("Version", tInt)]),
+     ("Task", [("Audit", tAudit), ("ID", tStr)]),
+     ("Task2", [("ID", tStr), ("Version", .ptr tInt), ("Audit", tAudit)]),
+     ("EmbA", [("ID", tStr)]), ("EmbB", [("ID", tInt)]),
+     ("Two", [("EmbA", .struct "EmbA"), ("EmbB", .struct "EmbB")]),
+     ("PTask", [("Audit", .ptr tAudit), ("ID", tStr)]),
+     ("Deep", [("Task", .struct "Task"), ("Version", tInt), ("ID", .slice tStr)])]
+
+def sv (s : String) : GoVal := .basic tStr s
+def wAudit (id : String) (ver : String) : GoVal := .struct "Audit" (.cons "ID" (sv id) (.cons "Version" (iv ver) .nil))
+/-- `Task{Audit:{ID:"audit-1",Version:3}, ID:"task-7"}` -/
+def wTask : GoVal := .struct "Task" (.cons "Audit" (wAudit "\"audit-1\"" "3") (.cons "ID" (sv "\"task-7\"") .nil))
+/-- `Task2{ID:"job-9", Version:&7, Audit:{ID:"audit-2",Version:1}}` -/
+def wTask2 : GoVal :=
+  .struct "Task2" (.cons "ID" (sv "\"job-9\"") (.cons "Version" (.ptr (iv "7")) (.cons "Audit" (wAudit "\"audit-2\"" "1") .nil)))
+def wTwo : GoVal :=
+  .struct "Two" (.cons "EmbA" (.struct "EmbA" (.cons "ID" (sv "\"a\"") .nil)) (.cons "EmbB" (.struct "EmbB" (.cons "ID" (iv "2") .nil)) .nil))
+def wPTask : GoVal := .struct "PTask" (.cons "Audit" (.ptr (wAudit "\"inner\"" "0")) (.cons "ID" (sv "\"outer\"") .nil))
+def wPTaskNil : GoVal := .struct "PTask" (.cons "Audit" (.nilptr tAudit) (.cons "ID" (sv "\"outer\"") .nil))
+def wDeep : GoVal :=
+  .ptr (.struct "Deep" (.cons "Task" wTask (.cons "Version" (iv "9") (.cons "ID" (.slice tStr false (.cons (sv "\"d\"") .nil)) .nil))))
+
+/-- every clashing shape is `Supported` and round-trips to ITSELF: the shadowed inner value and
+    the shadowing outer value both come back (outer field after / before the embedded struct, a
+    clash with another type, two embedded structs with the same field name, embedded by pointer —
+    nil and non-nil —, two levels deep), also inside `any` positions -/
+theorem embedded_structs_with_name_clashes_roundtrip :
+    ctxE.ok = true
+    ∧ [wTask, wTask2, wTwo, wPTask, wPTaskNil, wDeep,
+       .slice .iface false (.cons wTask (.cons (.ptr wTask2) (.cons wDeep .nil)))].all
+        (fun v => Supported ctxE Jid v
+          && decide ((enc ctxE Jid srcFacts v >>= unmarshalTop ctxE Jid srcFacts) = .ok v)) = true := by
+  decide
+
+/-- the table written for `Task` has the keys `Audit` and `ID` — the embedded `ID` is one level
+    down (computed instance of `struct_table_has_own_field_names_only`) -/
+theorem task_table_keys :
+    (match enc ctxE Jid srcFacts wTask with
+     | .ok (.mk _ _ _ _ _ _ _ _ _ mvs _ _ _) => mvs.keys
+     | _ => []) = ["Audit", "ID"] := by decide
+
+/-- (why promotion cannot work) two different `Task` values — the IDs swapped between the outer
+    field and the embedded struct — have the same set of (bare field name, value) pairs at the
+    two levels taken together; only the per-struct tables tell them apart. -/
+theorem swapped_ids_differ_only_by_level :
+    let a := GoVal.struct "Task" (.cons "Audit" (wAudit "\"x\"" "1") (.cons "ID" (sv "\"y\"") .nil))
+    let b := GoVal.struct "Task" (.cons "Audit" (wAudit "\"y\"" "1") (.cons "ID" (sv "\"x\"") .nil))
+    a ≠ b ∧ enc ctxE Jid srcFacts a ≠ enc ctxE Jid srcFacts b
+    ∧ (enc ctxE Jid srcFacts a >>= unmarshalTop ctxE Jid srcFacts) = .ok a
+    ∧ (enc ctxE Jid srcFacts b >>= unmarshalTop ctxE Jid srcFacts) = .ok b := by
+  decide
+
 end EinoV.C12
